@@ -1,78 +1,48 @@
 (* C20/Props.v -- property theorems only; each is closed by [exact] of a lemma from
-   C20/Proofs.v and followed by Print Assumptions.
+   C20/Proofs.v (etc.) and followed by Print Assumptions.
 
    Objects are the descriptors of C20/Syntax.v (sets, fields, interval products, grids,
    partitions, weightings, tensor / discretized / arbitrarily nested weighted product
    spaces) over the reals; [eqt v a b] is the outcome (TT / FF / EE = raises) of a == b
-   as transcribed in C20/Model.v; [hash_key v a] the tuple fed to hash().  [v] selects,
-   for two recorded findings, the behaviour of the code under test (the harness measures
-   it): theorems are stated for the repaired behaviour, refutations for the current one. *)
+   as transcribed in C20/Model.v; [hash_key v a] the tuple fed to hash().
+   [live_variants] is the code under test (after the fixes dd669fb and 99fe16d); the
+   correspondence shards run against it unconditionally.  [old_variants] is the code before
+   those fixes and appears only in the refutations at the end of this part. *)
 From Coq Require Import ZArith List Bool Reals String.
 From Verif Require Import Base.Num Base.Check C20.Syntax C20.Model C20.Proofs.
 Import ListNotations.
 
 (* ---------------------------------------------------------------- equality is an equivalence *)
 (* For every pair of constructible objects, == never raises ... *)
-Theorem eq_total : forall v, v_intv_guard v = true ->
-  forall a b : obj R, eqt v a b <> EE.
-Proof. exact eqt_noraise. Qed.
+Theorem eq_total : forall a b : obj R, eqt live_variants a b <> EE.
+Proof. exact (eqt_noraise live_variants eq_refl). Qed.
 Print Assumptions eq_total.
 
 (* ... is reflexive (this also justifies leaving the `other is self` shortcuts out of the model) ... *)
-Theorem eq_reflexive : forall v, v_intv_guard v = true ->
-  forall a : obj R, eqt v a a = TT.
-Proof. exact eqt_refl. Qed.
+Theorem eq_reflexive : forall a : obj R, eqt live_variants a a = TT.
+Proof. exact (eqt_refl live_variants eq_refl). Qed.
 Print Assumptions eq_reflexive.
 
 (* ... symmetric (as outcomes: a == b and b == a evaluate alike) ... *)
-Theorem eq_symmetric : forall v, v_intv_guard v = true ->
-  forall a b : obj R, eqt v a b = eqt v b a.
-Proof. exact eqt_sym. Qed.
+Theorem eq_symmetric : forall a b : obj R, eqt live_variants a b = eqt live_variants b a.
+Proof. exact (eqt_sym live_variants eq_refl). Qed.
 Print Assumptions eq_symmetric.
 
 (* ... and transitive, for all nesting depths and all list lengths. *)
-Theorem eq_transitive : forall v, v_intv_guard v = true ->
-  forall a b c : obj R, eqt v a b = TT -> eqt v b c = TT -> eqt v a c = TT.
-Proof. exact eqt_trans. Qed.
+Theorem eq_transitive : forall a b c : obj R,
+  eqt live_variants a b = TT -> eqt live_variants b c = TT -> eqt live_variants a c = TT.
+Proof. exact (eqt_trans live_variants eq_refl). Qed.
 Print Assumptions eq_transitive.
-
-(* PARTIAL statement that holds of the CURRENT code (both variants of IntervalProd.__eq__):
-   restricted to objects in which every interval product (also inside partitions, products,
-   unions ... at any depth) has the same number n of axes, == never raises and is an equivalence;
-   in fact its outcome does not depend on the variant at all. *)
-Theorem eq_outcome_independent_of_variant : forall n v v' (a b : obj R),
-  ndims_ok n a = true -> ndims_ok n b = true -> eqt v a b = eqt v' a b.
-Proof. exact eqt_variant_indep. Qed.
-Theorem eq_equivalence_current_partial : forall n (a b c : obj R),
-  ndims_ok n a = true -> ndims_ok n b = true -> ndims_ok n c = true ->
-  eqt current_variants a b <> EE /\
-  eqt current_variants a a = TT /\
-  eqt current_variants a b = eqt current_variants b a /\
-  (eqt current_variants a b = TT -> eqt current_variants b c = TT -> eqt current_variants a c = TT).
-Proof. exact current_eq_partial. Qed.
-Print Assumptions eq_equivalence_current_partial.
 
 (* ---------------------------------------------------------------- equal objects have equal hashes *)
 (* a == b implies that the hashed tuples are equivalent (position-wise for tuples, as sets
    for frozensets, by value for floats) -- hence hash(a) == hash(b) -- and that hash(a)
    raises exactly when hash(b) does. *)
-Theorem eq_implies_equal_hash : forall v, v_intv_guard v = true -> v_arrw_hash_type v = false ->
-  forall a b : obj R, eqt v a b = TT ->
-  key_eqv (hash_key v a) (hash_key v b) = true /\
-  hashable (hash_key v a) = hashable (hash_key v b).
-Proof. exact eqt_hash_full. Qed.
+Theorem eq_implies_equal_hash : forall a b : obj R, eqt live_variants a b = TT ->
+  key_eqv (hash_key live_variants a) (hash_key live_variants b) = true /\
+  hashable (hash_key live_variants a) = hashable (hash_key live_variants b).
+Proof. exact (eqt_hash_full live_variants eq_refl eq_refl). Qed.
 Print Assumptions eq_implies_equal_hash.
-
-(* PARTIAL statement that holds of the CURRENT code: if moreover no ProductSpaceArrayWeighting
-   occurs (tensor-space array weightings, constants, matrices, custom callables are all fine),
-   a == b implies equal hashes *)
-Theorem eq_implies_equal_hash_current_partial : forall n (a b : obj R),
-  ndims_ok n a = true -> ndims_ok n b = true ->
-  weights_ok no_ps_array a = true -> weights_ok no_ps_array b = true ->
-  eqt current_variants a b = TT ->
-  key_eqv (hash_key current_variants a) (hash_key current_variants b) = true.
-Proof. exact current_hash_partial. Qed.
-Print Assumptions eq_implies_equal_hash_current_partial.
 
 (* ---------------------------------------------------------------- weightings and partitions *)
 (* Weighting.__eq__ and its overrides: an equivalence (equality of the descriptor with the
@@ -81,64 +51,76 @@ Theorem weighting_eq_equivalence : forall a b c : weighting R,
   w_eqb a a = true /\ w_eqb a b = w_eqb b a /\
   (w_eqb a b = true -> w_eqb b c = true -> w_eqb a c = true).
 Proof. exact w_equiv. Qed.
-(* ... consistent with the hashes once the tensor-space array weighting stops hashing its class *)
-Theorem weighting_eq_implies_equal_hash : forall v, v_arrw_hash_type v = false ->
-  forall a b : weighting R, w_eqb a b = true -> w_key v a = w_key v b.
-Proof. exact w_eqb_key. Qed.
+(* ... consistent with the hashes *)
+Theorem weighting_eq_implies_equal_hash : forall a b : weighting R,
+  w_eqb a b = true -> w_key live_variants a = w_key live_variants b.
+Proof. exact (w_eqb_key live_variants eq_refl). Qed.
 Print Assumptions weighting_eq_implies_equal_hash.
 
 (* RectPartition.__eq__ holds exactly for identical (set, grid) data; hence an equivalence,
    and the hashed tuple (type, set, grid) agrees *)
-Theorem partition_eq_iff : forall v, v_intv_guard v = true ->
-  forall p q : part R, part_eqt v p q = TT <-> p = q.
-Proof. exact part_eqt_TT. Qed.
-Theorem partition_eq_total : forall v, v_intv_guard v = true ->
-  forall p q : part R, part_eqt v p q <> EE.
-Proof. exact part_eqt_noraise. Qed.
-Theorem partition_eq_implies_equal_hash : forall v, v_intv_guard v = true ->
-  forall p q : part R, part_eqt v p q = TT -> part_key p = part_key q.
-Proof. exact part_eq_key. Qed.
+Theorem partition_eq_iff : forall p q : part R, part_eqt live_variants p q = TT <-> p = q.
+Proof. exact (part_eqt_TT live_variants eq_refl). Qed.
+Theorem partition_eq_total : forall p q : part R, part_eqt live_variants p q <> EE.
+Proof. exact (part_eqt_noraise live_variants eq_refl). Qed.
+Theorem partition_eq_implies_equal_hash : forall p q : part R,
+  part_eqt live_variants p q = TT -> part_key p = part_key q.
+Proof. exact (part_eq_key live_variants eq_refl). Qed.
 Print Assumptions partition_eq_iff.
 
 (* ---------------------------------------------------------------- membership *)
 (* x in S is decided by  x.space == S ; by symmetry it is the same as  S == x.space *)
-Theorem membership_iff_space_equal : forall v, v_intv_guard v = true ->
-  forall (S : obj R) (x : elem R), contains v S x = eqt v S (space_of x).
-Proof. exact contains_sym. Qed.
+Theorem membership_iff_space_equal : forall (S : obj R) (x : elem R),
+  contains live_variants S x = eqt live_variants S (space_of x).
+Proof. exact (contains_sym live_variants eq_refl). Qed.
 Print Assumptions membership_iff_space_equal.
 
-(* ---------------------------------------------------------------- what the CURRENT code violates
-   Full statements (false of the faithful model with v = current_variants):
-     forall a b, eqt current a b <> EE;  forall a, eqt current a a = TT;
-     forall a b c, eqt a b = TT -> eqt b c = TT -> eqt a c = TT;
-     forall a b, eqt a b = TT -> key_eqv (hash_key a) (hash_key b) = true.          *)
-
+(* ---------------------------------------------------------------- the code BEFORE the two fixes
+   (kept as statements about the explicit old variant): the same statements were false, and
+   held only under the stated restrictions. *)
 (* IntervalProd(0,1) == IntervalProd([0,0,0],[1,1,1]) (NumPy broadcasting) with different hashes *)
-Theorem eq_implies_equal_hash_refuted :
-  exists a b : obj R, eqt current_variants a b = TT /\
-    key_eqv (hash_key current_variants a) (hash_key current_variants b) = false.
+Theorem eq_implies_equal_hash_old_variant_refuted :
+  exists a b : obj R, eqt old_variants a b = TT /\
+    key_eqv (hash_key old_variants a) (hash_key old_variants b) = false.
 Proof. exact hash_refuted. Qed.
-
-(* [0,1]^2 == [0,1] and [0,1] == [0,1]^3, but [0,1]^2 == [0,1]^3 raises ValueError *)
-Theorem eq_transitive_refuted :
-  exists a b c : obj R, eqt current_variants a b = TT /\ eqt current_variants b c = TT /\
-    eqt current_variants a c = EE.
+(* [0,1]^2 == [0,1] and [0,1] == [0,1]^3, but [0,1]^2 == [0,1]^3 raised ValueError *)
+Theorem eq_transitive_old_variant_refuted :
+  exists a b c : obj R, eqt old_variants a b = TT /\ eqt old_variants b c = TT /\
+    eqt old_variants a c = EE.
 Proof. exact trans_refuted. Qed.
-
-(* SetUnion(I2, I3) == SetUnion(I2, I3) raises *)
-Theorem eq_reflexive_refuted : exists a : obj R, eqt current_variants a a = EE.
+(* SetUnion(I2, I3) == SetUnion(I2, I3) raised *)
+Theorem eq_reflexive_old_variant_refuted : exists a : obj R, eqt old_variants a a = EE.
 Proof. exact refl_refuted. Qed.
-
 (* NumpyTensorSpaceArrayWeighting(w) == ProductSpaceArrayWeighting(w) with different hashes *)
-Theorem weighting_eq_implies_equal_hash_refuted :
+Theorem weighting_eq_implies_equal_hash_old_variant_refuted :
   exists a b : weighting R, w_eqb a b = true /\
-    key_eqv (w_key current_variants a) (w_key current_variants b) = false.
+    key_eqv (w_key old_variants a) (w_key old_variants b) = false.
 Proof. exact w_hash_refuted. Qed.
+(* restricted to objects whose interval products all have one ndim the outcome of == never
+   depended on the variant, so the old code was an equivalence there ... *)
+Theorem eq_outcome_independent_of_variant : forall n v v' (a b : obj R),
+  ndims_ok n a = true -> ndims_ok n b = true -> eqt v a b = eqt v' a b.
+Proof. exact eqt_variant_indep. Qed.
+Theorem eq_equivalence_old_variant_partial : forall n (a b c : obj R),
+  ndims_ok n a = true -> ndims_ok n b = true -> ndims_ok n c = true ->
+  eqt old_variants a b <> EE /\
+  eqt old_variants a a = TT /\
+  eqt old_variants a b = eqt old_variants b a /\
+  (eqt old_variants a b = TT -> eqt old_variants b c = TT -> eqt old_variants a c = TT).
+Proof. exact current_eq_partial. Qed.
+(* ... and hash-consistent if moreover no ProductSpaceArrayWeighting occurred *)
+Theorem eq_implies_equal_hash_old_variant_partial : forall n (a b : obj R),
+  ndims_ok n a = true -> ndims_ok n b = true ->
+  weights_ok no_ps_array a = true -> weights_ok no_ps_array b = true ->
+  eqt old_variants a b = TT ->
+  key_eqv (hash_key old_variants a) (hash_key old_variants b) = true.
+Proof. exact current_hash_partial. Qed.
 
 (* ================================================================ derived spaces
    (C20/Derived.v: astype/_astype, real/complex counterparts, ProductSpace.dtype/astype/
    __getitem__, Python slices; dtype predicates regenerated from odl.util into Gen/C20Tables.v;
-   [dv] selects the current or the repaired behaviour of four recorded findings).
+   [dv] selects the current or a repaired behaviour of three open findings; a fourth switch,
+   for byaxis on non-numeric dtypes, is fixed in /repo and set accordingly in current_dvariants).
    Theorems hold for every carrier T, every nesting depth and every list length. *)
 From Verif Require Import Gen.C20Tables C20.Derived C20.DerivedProofs C20.HashTab C20.Tables.
 
@@ -267,7 +249,7 @@ Example element_example :
   let r2 := OTensor {| ts_shape := [2%Z]; ts_dtype := DFloat64; ts_w := WConst KNpy 1%R (EFin 2%R) |} in
   let S := OProd [r2; OProd [r2] (WConst KPs 2%R (EFin 2%R)) FReal] (WConst KPs 1%R (EFin 2%R)) FReal in
   let i := IList [IList [IScalar 1%R; IScalar 2%R]; IList [IArr 7 DFloat64 [2%Z] [3%R; 4%R]]] in
-  element current_variants S i = RProdE [RTens [1%R; 2%R] None; RProdE [RTens [3%R; 4%R] (Some 7%Z)]].
+  element old_variants S i = RProdE [RTens [1%R; 2%R] None; RProdE [RTens [3%R; 4%R] (Some 7%Z)]].
 Proof. reflexivity. Qed.
 
 (* ================================================================ float side lemma (all binary64 floats)
@@ -293,3 +275,70 @@ Example ndims_ok_example :
                      OTensor {| ts_shape := [3%Z]; ts_dtype := DFloat64; ts_w := WConst KNpy 1%R (EFin 2%R) |}]
                     (WConst KPs 1%R (EFin 2%R)) FReal) = true.
 Proof. reflexivity. Qed.
+
+(* ================================================================ comparison tables regenerated from source
+   Which attributes each __eq__ compares, in which order, with which operator (==, is,
+   np.all(==), zip-all, two-sided membership), read from the AST of the code under test into
+   Gen/C20Tables.v, is -- for EVERY pair of objects of the class -- the equality of the model
+   (24 classes in C20/EqTables.v; three shown).  A tolerance (np.isclose, approx_equals) is
+   outside the translator's grammar; a dropped / added / reordered conjunct breaks a lemma. *)
+From Verif Require Import C20.EqTab C20.EqTables.
+Theorem eq_table_ProductSpace : forall (l1 : list (obj R)) w1 f1 l2 w2 f2,
+  interp_eq (fun x => match x with
+                      | ELenEq => Some (tri_of (Nat.eqb (List.length l1) (List.length l2)))
+                      | EAttrEq "weighting"%string true => Some (tri_of (w_eqb w1 w2))
+                      | EZipAllEq "spaces"%string => Some (zipt (eqt live_variants) l1 l2)
+                      | _ => same_class "ProductSpace"%string x end) eq_ProductSpace
+  = eqt live_variants (OProd l1 w1 f1) (OProd l2 w2 f2).
+Proof. exact eqtab_ProductSpace. Qed.
+Theorem eq_table_ConstWeighting : forall k (c : R) e k' c' e',
+  interp_eq (fun x => match x with
+                      | ESuper => Some (base_eq (WConst k c e) (WConst k' c' e'))
+                      | EAttrEqGetattr "const"%string => Some (tri_of (neqb c c'))
+                      | _ => None end) eq_ConstWeighting
+  = tri_of (w_eqb (WConst k c e) (WConst k' c' e')).
+Proof. exact eqtab_ConstWeighting. Qed.
+Theorem eq_table_IntervalProd : forall a b : list (ext R * ext R),
+  interp_eq (sem_intv a b) eq_IntervalProd = intv_eqt live_variants a b.
+Proof. exact eqtab_IntervalProd. Qed.
+Theorem contains_table_spaces : forall (S : obj R) (x : elem R),
+  interp_contains contains_LinearSpace S x = contains live_variants S x /\
+  interp_contains contains_TensorSpace S x = contains live_variants S x.
+Proof. exact ctab_spaces. Qed.
+Print Assumptions eq_table_ProductSpace.
+
+(* ================================================================ byaxis_in *)
+(* space.byaxis_in[idx] discretizes exactly the selected axes (interval ends and grid vectors at
+   the selected positions, in order) and its tensor space has the shape of that sub-partition;
+   all index expressions (int, slice, list), all dimensions *)
+Theorem byaxis_in_selects_axes : forall dv (p : part R) (t : tsp R) i b,
+  obyaxis_in dv (ODiscr p t) i = Ok b ->
+  exists ps p' t', b = ODiscr p' t' /\
+    axis_positions (Z.of_nat (List.length (p_grid p))) i = Ok ps /\
+    Forall2 (fun q x => nth_error (p_intv p) (Z.to_nat q) = Some x) ps (p_intv p') /\
+    Forall2 (fun q x => nth_error (p_grid p) (Z.to_nat q) = Some x) ps (p_grid p') /\
+    ts_shape t' = map (fun g => Z.of_nat (List.length g)) (p_grid p').
+Proof. exact (@byaxis_in_spec R _). Qed.
+
+(* ================================================================ element() options
+   element_opt models order= ('C'/'F': no identity fast path, Fortran copy unless at most one
+   axis is longer than 1) and cast=False (TypeError instead of converting parts); it is tied
+   by the correspondence, and with the default options it is the element() of the theorems above. *)
+Theorem element_default_options : forall v (S : obj R) (i : inp),
+  element_opt v None true S i = element v S i.
+Proof. exact (@element_opt_default R _). Qed.
+
+(* ================================================================ element indexing (basic indices)
+   C20/Indexing.v (NumpyTensor.__getitem__, DiscretizedSpaceElement.__getitem__), tied by the
+   correspondence on values, result space and error class. *)
+From Verif Require Import C20.Indexing.
+Theorem element_index_drops_one_axis_per_int : forall (idx : list idx1) (shape sh : list Z),
+  index_shape shape idx = Ok sh -> (List.length sh + n_ints idx = List.length shape)%nat.
+Proof. exact index_shape_ndim. Qed.
+Theorem element_index_result_space : forall (t : tsp R) data idx t' d,
+  tens_getitem t data idx = Ok (GTens t' d) ->
+  index_shape (ts_shape t) idx = Ok (ts_shape t') /\ ts_dtype t' = ts_dtype t /\
+  d = index_data (ts_shape t) idx data /\
+  (is_numeric (ts_dtype t) = true -> (forall k i e, ts_w t <> WArray k i e) -> ts_w t' = ts_w t).
+Proof. exact (@tens_getitem_space R _). Qed.
+Print Assumptions element_index_result_space.
